@@ -18,6 +18,8 @@ namespace model {
 struct SparseRow {
     std::vector<int> col;
     std::vector<double> val;
+    std::vector<double> aval; // sum of the absolute values of the elementary contributions (for rounding bounds: the
+                              // library may add the contributions one by one, so cancellation inside an entry counts)
 };
 
 struct RefOperator {
